@@ -112,7 +112,7 @@ class C04(Prop):
                 else:
                     data, meta = S.gen_linebased(rng, fmt, kind, tier=ctx.tier)
             else:
-                data, meta = S.gen_fasta(rng, ctx.tier, kind)
+                data, meta = S.gen_fasta(rng, ctx.tier, kind, geometry="cr" if rng.random() < 0.05 else None)
             nrec = len(meta["recs"])
             ops = ["file ext=dat hex=" + hx(data), "open fmt=%s abc=text B=4096" % fmt] + ["read"] * (nrec + 1) + ["close"]
             if rng.random() < 0.3:
@@ -139,7 +139,8 @@ class C04(Prop):
                     total = sum(len(r["seq"]) for r in meta["recs"])
                     lng = 1 if abc in ("dna", "rna") and rng.random() < 0.7 else 0
                     ls = rng.choice([1, 2, 3, 8])
-                    mr = rng.choice([-1, 7, 20, 60, 100, 1000, max(1, total // 3)])
+                    L0 = len(meta["recs"][0]["seq"]) if meta["recs"] else 1
+                    mr = rng.choice([-1, 7, 20, 60, 100, 1000, max(1, total // 3), max(1, L0), max(1, L0 - 1), L0 + 1, max(1, L0 // 2)])
                     ms = rng.choice([-1, -1, 1, 2])
                     ini = rng.choice([0, 1])
                     ctxv = rng.choice([0, 0, 3, 10])
@@ -149,6 +150,9 @@ class C04(Prop):
                     continue
                 if mode in ("read", "info", "seq"):
                     ops += [{"read": "read", "info": "readinfo", "seq": "readseq"}[mode]] * (nrec + 1)
+                    if rng.random() < 0.4:
+                        # esl_sqfile_Position: rewind and read again (to the monitor a second pass over the same records)
+                        ops += ["close", "open fmt=%s abc=%s B=%d" % (fmt, abc, B), "read", "pos off=0"] + [rng.choice(["read", "readinfo", "readseq"]) for _ in range(nrec + 1)]
                 elif mode == "mixed":
                     ops += [rng.choice(["read", "readinfo", "readseq"]) for _ in range(nrec + 1)]
                 elif mode == "rt":
@@ -158,6 +162,10 @@ class C04(Prop):
                         L = len(r["seq"])
                         C = rng.choice([0, 0, 1, 2, 5, 10, 50, rng.randrange(0, 51)])
                         W = rng.choice([1, 2, 3, 7, 10, 60, 100, 5000, max(1, L), max(1, L - 1), L + 1, max(1, L // 2), rng.randrange(1, 200)])
+                        if L >= 250 and rng.random() < 0.5:
+                            # C + W on the allocation boundary of the residue array (esl_sq_GrowTo(sq, C+W), eslSQ_SEQCHUNK = 256)
+                            C = rng.choice([0, 1, 6, 50])
+                            W = rng.choice([253, 254, 255, 256, 257]) - C
                         nwin = (L + W - 1) // W if L else 0
                         if nwin > 60:
                             W = max(W, L // 40 + 1)
